@@ -1205,6 +1205,7 @@ THEOREMS = ['Props.C20.' + t for t in [
     'source_cell_is_block_index', 'eos_explicit', 'eos_from_multi', 'eos_from_simulator',
     'eos_detected_from_simulator',
     'add_generator_spec', 'delete_generator_spec', 'insert_delete_section_spec',
+    'section_ops_keep_order', 'converted_sections_ordered',
 ]] + [
     # obligations on the generated tables (decide over the whole table, re-elaborated against /repo's current tables)
     'Proofs.Convert.convert_targets_tough2',
@@ -1331,7 +1332,42 @@ def nontrivial_conv(case, st0, st1, outcome):
     return any(st0[k] != st1[k] for k in keys)
 
 
+ANCHORED = ['get_type', 'set_type', 'insert_section', 'delete_section', 'section_insertion_index', 'get_present_sections', 'update_sections',
+            'add_generator', 'delete_generator', 'generator_index', 'convert_mulkom_heat_conductivity',
+            'convert_AUTOUGH2_parameters_to_TOUGH2', 'convert_TOUGH2_parameters_to_AUTOUGH2', 'convert_AUTOUGH2_generators_to_TOUGH2',
+            'convert_short_to_history', 'convert_history_to_short', 'convert_to_TOUGH2', 'convert_to_AUTOUGH2',
+            'write_history_blocks', 'write_history_connections', 'write_history_generators', 'read_history_blocks',
+            'read_history_connections', 'read_history_generators', 'json', 'eos_json', 'rocks_json', 'generators_json', 'boundaries_json', 'mesh_json']
+
+
 def run(ctx, scale=1.0, model=True):
+    """thorough tier: the same run under `coverage`, recording which lines of the anchored functions were executed"""
+    if ctx.quick or not model:
+        return _run(ctx, scale, model)
+    try:
+        import coverage
+    except ImportError:
+        return _run(ctx, scale, model)
+    import ast
+    path = str(core.REPO / 't2data.py')
+    cov = coverage.Coverage(include=[path], data_file=None)
+    cov.start()
+    try:
+        res = _run(ctx, scale, model)
+    finally:
+        cov.stop()
+    executed = set(cov.get_data().lines(path) or [])
+    statements = set(cov.analysis2(path)[1])
+    tree = ast.parse(open(path).read())
+    for n in ast.walk(tree):
+        if isinstance(n, ast.FunctionDef) and n.name in ANCHORED:
+            lines = {l for l in statements if n.lineno < l <= n.end_lineno}
+            miss = sorted(lines - executed)
+            res.stats['reach:%s' % n.name] = '%d/%d lines' % (len(lines & executed), len(lines)) + (' (not executed: %s)' % miss[:12] if miss else '')
+    return res
+
+
+def _run(ctx, scale=1.0, model=True):
     import importlib, t2data, t2grids, mulgrids
     for m in (mulgrids, t2grids, t2data):
         importlib.reload(m)
@@ -1347,7 +1383,7 @@ def run(ctx, scale=1.0, model=True):
     fc, ff, fh = res.facet('convert'), res.facet('convert_file'), res.facet('history_lines')
     fe, fr, fs, fb = res.facet('waiwera_eos'), res.facet('waiwera_rocks'), res.facet('waiwera_sources'), res.facet('waiwera_boundary')
     lines, expect = [], []        # driver requests and (facet, expected reply, case-json, decode?)
-    hyp_nodup, hyp_ids, hyp_wf, hyp_rt, hyp_hg = [0, 0], [0, 0], [0, 0], [0, 0], [0, 0]
+    hyp_nodup, hyp_ids, hyp_wf, hyp_rt, hyp_hg, hyp_ord = [0, 0], [0, 0], [0, 0], [0, 0], [0, 0], [0, 0]
     for case in conv_stream(ctx, scale):
         viol, b, outcome, st1, st0, scope = oracle_conversion(case, ctx.tmp, order)
         res.violations += viol
@@ -1372,6 +1408,8 @@ def run(ctx, scale=1.0, model=True):
                       + ('+names' if any(i[0] in 'ST' for i in st0['hb'] + st0['hc'] + st0['hg']) else ''))
         hyp_nodup[1] += 1
         if len(set(st0['sections'])) == len(st0['sections']): hyp_nodup[0] += 1
+        hyp_ord[1] += 1
+        if file_like(st0['sections'], order): hyp_ord[0] += 1
         hyp_ids[1] += 1
         if len({g[0] for g in st0['gens']}) == len(st0['gens']): hyp_ids[0] += 1
         hyp_wf[1] += 1
@@ -1423,6 +1461,7 @@ def run(ctx, scale=1.0, model=True):
                         lines.append('rhist %s %s' % (eL(eS, st1['blocks']), eL(eS, names)))
                     expect.append(('history_lines', items, case, None))
     res.hyp['sections.Nodup (to_tough2_no_autough2_sections, second part)'] = hyp_nodup
+    res.hyp['sections in standard order (converted_sections_ordered)'] = hyp_ord
     res.hyp['generator objects distinct (to_tough2_generators)'] = hyp_ids
     res.hyp['lookup keys distinct, entries point to listed generators of that block and name (to_tough2_lookup, ..._consistent)'] = hyp_wf
     res.hyp['history lists of the converted model hold only grid blocks / connections (to_tough2_history_roundtrip_partial)'] = hyp_rt
@@ -1485,7 +1524,7 @@ def search(ctx, seconds, res):
         c2 = core.Ctx(ctx.prop, ctx.tier, ctx.seed + 1000 * k)
         c2.model_ok = False
         try:
-            r = run(c2, scale=0.5, model=False)
+            r = _run(c2, scale=0.5, model=False)
         finally:
             c2.cleanup()
         found = r.violations
